@@ -580,6 +580,30 @@ fn make_var_heavy(r: &mut Rng, p: &mut Prog, d: &J) {
         p.rules.push(Rule { name: "probe_sq".into(), when: vec![], body: Body { lets: vec![], lines } });
         p.rules.push(Rule { name: "probe_sq2".into(), when: vec![mk(Op::Exists, false)], body: Body { lets: vec![], lines: vec![mk(Op::IsString, false)] } });
     }
+    // a variable first referenced from a when-condition, and one referenced from inside a filter
+    p.rules.push(Rule { name: "probe_when".into(), when: vec![Line { alts: vec![var_clause("fq", r)] }], body: Body { lets: vec![], lines: vec![Line { alts: vec![var_clause("fq", r)] }, Line { alts: vec![var_clause("fc", r)] }] } });
+    if let J::Map(kv) = d {
+        if let Some((_, J::List(recs))) = kv.iter().find(|(k, _)| k == "recs") {
+            if let Some(J::Map(m)) = recs.first() {
+                if let Some((_, J::Str(n0))) = m.iter().find(|(k, _)| k == "name") {
+                    p.lets.push(Let { name: "want".into(), val: Arg::Lit(J::Str(n0.clone())) });
+                    let filt = Part::Filter { cap: None, lines: vec![Line { alts: vec![Clause::Cmp(Cmp { not: false, q: Query { some: false, parts: vec![Part::Key("name".into())] }, op: Op::Eq, opnot: r.chance(1, 3), rhs: Some(rules::Rhs::Query(Query { some: false, parts: vec![Part::Var("want".into())] })), msg: None })] }] };
+                    let c = Clause::Cmp(Cmp { not: false, q: Query { some: false, parts: vec![Part::Key("recs".into()), filt, Part::Key("n".into())] }, op: Op::Exists, opnot: false, rhs: None, msg: None });
+                    p.rules.push(Rule { name: "probe_filter".into(), when: vec![], body: Body { lets: vec![], lines: vec![Line { alts: vec![c] }, Line { alts: vec![var_clause("want", r)] }] } });
+                }
+            }
+        }
+    }
+    // shadowing: a rule-level variable with the name of a file-level one, bound to something else
+    if !p.rules.is_empty() && r.chance(1, 2) {
+        let k = r.usize(p.rules.len());
+        let kk = key(r);
+        p.rules[k].body.lets.push(Let { name: "fq".into(), val: Arg::Query(Query { some: false, parts: vec![Part::Key(kk), Part::Key("zz_inner".into())] }) });
+        let c1 = var_clause("fq", r);
+        let c2 = var_clause("fq", r);
+        p.rules[k].body.lines.push(Line { alts: vec![c1] });
+        p.rules[k].body.lines.insert(0, Line { alts: vec![c2] });
+    }
     let file_vars: Vec<String> = p.lets.iter().map(|l| l.name.clone()).collect();
     let nrules = p.rules.len();
     for v in &file_vars {
